@@ -81,6 +81,9 @@ class LockRun:
                 if self.world.runnable(p):
                     en.append((3, t))
                 en.append((4, t))
+                sc = getattr(p, "sc", None)
+                if sc is not None and not sc.cancel_called:
+                    en.append((5, t))
         return en
 
     def do(self, c: int, t: int):
@@ -88,8 +91,16 @@ class LockRun:
         lock = self.lock
         before = self.observe()
         if c == 0:
+            CancelScope = self.anyio.CancelScope
+
             async def cmd(p):
-                await lock.acquire()
+                # every acquire() runs in its own cancel scope so that AnyIO cancellation can be aimed at it
+                with CancelScope() as sc:
+                    p.sc = sc
+                    await lock.acquire()
+                p.sc = None
+                if sc.cancelled_caught:
+                    raise CancelledError("absorbed by the call's own scope")
             out = w.act(t, cmd)
         elif c == 1:
             async def cmd(p):
@@ -101,6 +112,20 @@ class LockRun:
             out = w.act(t, cmd)
         elif c == 3:
             out = w.resume(t)
+        elif c == 5:
+            # AnyIO cancellation of the scope around the blocked acquire(): by the model's claim it is either the
+            # same as Task.cancel() on a pending waiter, or (waiter done / shielded yield) it does nothing now
+            p = w.puppets[t]
+            fw = getattr(p.task, "_fut_waiter", None)
+            pending = fw is not None and not fw.done()
+            p.sc.cancel()
+            self.flags.add("scope_cancel_pending" if pending else "scope_cancel_deferred")
+            if not pending:
+                if self.observe() != before:
+                    self.mon.append(f"scope cancellation of task {t} whose waiter is not pending changed the lock state")
+                return
+            c = 4
+            out = None
         else:
             w.puppets[t].task.cancel()
             out = None
@@ -203,7 +228,7 @@ def run_script(fast: bool, ntasks: int, flat_ops: list[int], quiesce=True):
 def random_case(rng: random.Random, nsteps: int):
     fast = rng.random() < 0.35
     ntasks = rng.choice([2, 3, 3, 4, 5])
-    weights = {0: 5, 1: 1.2, 2: 3, 3: 5, 4: rng.choice([0.5, 2, 4])}
+    weights = {0: 5, 1: 1.2, 2: 3, 3: 5, 4: rng.choice([0.5, 2, 4]), 5: rng.choice([0.5, 2, 3])}
     with LockRun(fast, ntasks) as r:
         for _ in range(nsteps):
             en = r.enabled()
@@ -338,7 +363,7 @@ def check(tier: str) -> int:
         "samples": [{"fast": runs[i].fast, "ops": [(OPN[runs[i].ops[j]], runs[i].ops[j + 1]) for j in range(0, len(runs[i].ops), 2)][:30],
                      "outs": runs[i].outs[:40]} for i in idx[:2]],
     })
-    for need in ("contended_wait", "cancel_waiter", "handoff", "cancel_after_handoff", "fastpath_yield"):
+    for need in ("contended_wait", "cancel_waiter", "handoff", "cancel_after_handoff", "fastpath_yield", "scope_cancel_pending", "scope_cancel_deferred"):
         if not flags.get(need):
             rep.notes.append(f"generator self-check: predicate {need} never reached")
     return rep.finish()
